@@ -154,9 +154,12 @@ class SymBNode(BNode):
 class SymIntLit(Literal):
     """xsd:integer literal whose value is the symbolic int k (lexical form not modelled)."""
 
-    def __new__(cls, k):
+    def __new__(cls, k, j=0):
+        """k: the value; j: a 'spelling' identity — literals with equal k and different j are value-equal but distinct
+        terms (1 vs "1.0"^^xsd:decimal); j is the concrete 0 unless a harness asks for spellings"""
         inst = str.__new__(cls, "0")
         inst.k = k
+        inst.j = j
         inst._value = k
         inst._datatype = XSD.integer
         inst._language = None
@@ -168,7 +171,11 @@ class SymIntLit(Literal):
             return True
         if type(o) is not SymIntLit:
             return False
-        return _fork(self.k == o.k)
+        if not _fork(self.k == o.k):
+            return False
+        if self.j is o.j:
+            return True
+        return _fork(self.j == o.j)
 
     def __ne__(self, o):
         return not self.__eq__(o)
@@ -180,7 +187,7 @@ class SymIntLit(Literal):
         return _fork(self.k != 0)
 
     def __reduce__(self):
-        return (SymIntLit, (self.k,))
+        return (SymIntLit, (self.k, self.j))
 
     def __repr__(self):
         return "SymIntLit"
@@ -200,6 +207,9 @@ class SymFactory:
 
     def lit(self, k):
         return SymIntLit(k)
+
+    def lit2(self, k, j):
+        return SymIntLit(k, j)
 
     def key(self, t):
         """identity of a term produced by this factory (or None for foreign terms)"""
@@ -231,6 +241,13 @@ class RealFactory:
 
     def lit(self, k):
         return Literal(int(k))
+
+    def lit2(self, k, j):
+        """value k, spelling j: j == 0 the integer literal, otherwise a decimal with |j| trailing zeros (value-equal, distinct term)"""
+        from decimal import Decimal
+        if j == 0:
+            return Literal(int(k))
+        return Literal("%d.%s" % (k, "0" * min(abs(int(j)), 6)), datatype=XSD.decimal)
 
     def key(self, t):
         return t
